@@ -259,9 +259,16 @@ func main() {
 				u := urls[2+i%2]
 				if i%4 < 2 {
 					_ = rb.UpsertServer(u, roundrobin.Weight(1+i%3))
-				} else {
-					_ = rb.RemoveServer(u)
+				} else if err := rb.RemoveServer(u); err == nil {
+					// this goroutine is the only one that adds or removes u: once the removal has succeeded the inner
+					// balancer must not serve u (whatever re-weighting or administration of OTHER servers ran meanwhile)
+					if w, found := rr.ServerWeight(u); found {
+						fail("Rebalancer: RemoveServer(%s) returned nil and the inner balancer still serves it with weight %d", u, w)
+					}
 				}
+			case gi == 3 && G > 4:
+				// a second administrator re-weights ANOTHER server: every such call re-applies the recorded weights
+				_ = rb.UpsertServer(urls[1], roundrobin.Weight(1+i%4))
 			case gi == 1:
 				_ = rb.Servers()
 				_, _ = rr.ServerWeight(urls[i%4])
